@@ -61,6 +61,10 @@ def plan(case, rseed, force=None):
     rng.shuffle(letters)                       # names must not follow the numbering of the model
     tag = case.get("tag", "K")
     base = {c: f"{tag}_{letters[c - 1]}" for c in nodes}
+    if len(nodes) >= 2 and rng.random() < 0.3:
+        # two classes whose names differ ONLY BY CASE (class names are case-sensitive, in Python and in C)
+        c1, c2 = rng.sample(list(nodes), 2)
+        base[c2] = base[c1].swapcase()
     kinds, edges, names, derive = {}, {}, {}, {}
     scal = SCALARS[:]
     rng.shuffle(scal)
